@@ -11,7 +11,8 @@ RULE = ('C08\'s string domain (token and category alphabets exhaustive up to L, 
         'documents rendered with arbitrary attaching whitespace between commands and their arguments. Oracle: '
         't=str(parse(s)); parse(t) succeeds; str(parse(t))==t; the canonical tree of parse(t) equals that of parse(s); '
         'for spaced documents t equals the adjacent rendering of the same syntax tree and its tree equals the syntax '
-        'tree. Non-trivial = t != s (the serialiser normalised something) or s is not well-formed; distinct by string')
+        'tree. Non-trivial = t != s (the serialiser normalised something) or s is not well-formed; distinct by string'
+        '. Also: all strings of <= 3 symbols over A_ENV and bracket / brace bodies that get shorter on output, at every size 1..700 and around 256 / 512 / 1024 characters')
 ASSUMPTIONS = ['strings that do not parse in strict mode or that the lexical scanner cannot certify are skipped and counted']
 
 
